@@ -29,6 +29,15 @@ def run_case(ctx, case):
     m = drv.call("kv.union", U, V)
     if tuple(frac(x) for x in ku) != tuple(U) or tuple(frac(x) for x in kv) != tuple(V):
         rec.violation("| modified an operand", case)
+    # `&` (whatever it answers for these operands: a vector, or an exception) and the in-place forms never modify an operand
+    for name, fn in (("U & V", lambda: ku & kv), ("V & U", lambda: kv & ku),
+                     ("copy(U) &= V", lambda: KnotVector(list(U)).__iand__(kv)), ("copy(V) &= U", lambda: KnotVector(list(V)).__iand__(ku)),
+                     ("copy(U) |= V", lambda: KnotVector(list(U)).__ior__(kv)), ("copy(V) |= U", lambda: KnotVector(list(V)).__ior__(ku))):
+        impl(fn)
+        l3(rec, "operands-untouched")
+        if tuple(frac(x) for x in ku) != tuple(U) or tuple(frac(x) for x in kv) != tuple(V) or ku.degree != p or kv.degree != q:
+            rec.violation("%s modified an operand" % name, case, U_now=ser([frac(x) for x in ku]), V_now=ser([frac(x) for x in kv]))
+            return
     if not same_interval:
         l2(rec, "kv.union.reject", case, errkind(r), errkind(m), errkind(r) == errkind(m))
         ri = impl(lambda: ku & kv)
